@@ -1010,6 +1010,8 @@ def atom_degree(a, target):
             for i, x in enumerate(a.args):
                 if i in carried:
                     continue
+                if a.name in ("loopsum", "loopstore", "loopfinal") and i >= 1:
+                    continue        # the bound variable and the index set it runs over carry no degree
                 dv = val_degree(x, target)
                 if dv != 0 and val_depends(x, target):
                     return None
